@@ -241,7 +241,14 @@ func (c *_cache) doSync(list []metav1.Object) []Event {
 				continue
 			}
 		default:
-			// don't add to working new working set of objects
+			// rejected, and newer than what is cached (if anything): the
+			// cached object is superseded right away, so that neither an
+			// earlier nor a later element of the same list keeps it alive.
+			if found {
+				events = append(events, NewEvent(EventTypeDelete, current.object))
+				delete(c.items, key)
+				delete(set, key)
+			}
 			continue
 		}
 
